@@ -22,7 +22,9 @@ ASSUMPTIONS = ["configuration D (timeout=0)", "filler candidates come from a lis
 FILLERS = ["zzz", "qqq", "lorem", "beers", "burgers", "gift", "pizza", "buy", "kwyjibo", "flug", "hotel", "zug", "with", "bob", "alice",
            "projekt", "review", "yoga", "lunch", "besprechung", "x", "qa", "sync", "flight", "paris", "report", "send", "pay", "rent", "gym",
            "party", "zahnarzt", "geburtstag", "urlaub", "büro", "workshop", "deploy", "backup", "taxes", "groceries", "vet", "haircut", "books",
-           "code", "ship", "plan", "write", "read", "walk", "run", "swim", "meeting", "call"]
+           "code", "ship", "plan", "write", "read", "walk", "run", "swim", "meeting", "call",
+           # decomposed (non-NFC) spellings, as some platforms deliver them: offsets must still be those of the text as given
+           "Bu\u0308ro", "cafe\u0301", "nai\u0308ve", "u\u0308ben", "Ko\u0308ln"]
 TSS = ["2021-03-10T12:43:30", "2020-02-29T23:59:00", "2019-12-31T08:00:00", "2024-02-28T23:10:00"]
 
 
